@@ -138,6 +138,7 @@ class AtomGrid(Grid):
         )
         self._size = self._weights.size
         self._basis = None
+        self._kdtree = None
         self._method = method.lower()
 
     @classmethod
